@@ -2,7 +2,7 @@
 
 // verif:pkg pkg/ratelimiter/store/flowcontrol
 // verif:init github.com/kubewharf/kubegateway/pkg/ratelimiter/store/flowcontrol
-// verif:opt unwind=12 witnesses=0 maxpaths=400000
+// verif:opt unwind=12 witnesses=12 maxpaths=400000
 
 package flowcontrol
 
